@@ -140,12 +140,48 @@ def alias_probe(ctx, h):
                           seam="HvsrAzimuthal distribution argument")
 
 
+def repeatable_probe(ctx, rng):
+    """very stationary data: peak amplitudes (and frequencies) that agree to ~1e-7 across windows. The variance on the covariance diagonal must
+    still be the squared standard deviation, and a single azimuth must still equal the traditional result (a one-pass E[x^2] - E[x]^2 formula
+    loses these digits)"""
+    import hvsrpy
+    freq = np.geomspace(0.2, 20, 80)
+    for j in range(ctx.budget(8, 60)):
+        naz = int(rng.integers(1, 4)); nw = int(rng.integers(3, 8))
+        f0 = float(rng.uniform(0.8, 5.0)); a0 = float(rng.uniform(2.0, 6.0))
+        hs = []
+        for _ in range(naz):
+            rows = np.array([1.0 + (a0 * (1 + 1e-7 * rng.normal()) - 1.0) * np.exp(-0.5 * (np.log(freq / (f0 * (1 + (1e-3 if j % 2 else 1e-7) * rng.normal()))) / 0.3) ** 2)
+                             for _ in range(nw)])
+            hs.append(hvsrpy.HvsrTraditional(freq, rows))
+        obj = hvsrpy.HvsrAzimuthal(hs, [float(a) for a in np.linspace(0, 150, naz)])
+        for d in ("normal", "lognormal"):
+            try:
+                c = np.asarray(obj.cov_fn(d), dtype=float)
+                sf, sa = float(obj.std_fn_frequency(d)), float(obj.std_fn_amplitude(d))
+            except hvgen.STAT_ERRS:
+                continue
+            ctx.supporting["repeatable_cov_cases"] = ctx.supporting.get("repeatable_cov_cases", 0) + 1
+            # the peak FREQUENCIES sit on grid points (their spread is rounding noise): only the amplitude variance is a meaningful number here
+            ok = abs(c[1, 1] - sa * sa) <= 1e-5 * max(c[1, 1], sa * sa) + 1e-300
+            if ok and naz == 1:
+                t = np.asarray(hs[0].cov_fn(d), dtype=float)
+                ok = bool(abs(t[1, 1] - c[1, 1]) <= 1e-5 * abs(t[1, 1]) + 1e-300)
+            if not ok:
+                ctx.violation("variance-on-covariance-diagonal-equals-squared-std", dict(case=dict(kind="A", freq=freq.tolist(), rows_per_az=[h.amplitude.tolist() for h in hs], azimuths=list(obj.azimuths)),
+                                                                                  distribution=d, cov=c.tolist(), std_fn_frequency=sf, std_fn_amplitude=sa),
+                              seam="HvsrAzimuthal.cov_fn on nearly identical windows")
+                break
+
+
 def run(ctx):
     ctx.rule = ("histories on HvsrAzimuthal objects (1-5 azimuths x 2-8 windows) with per-azimuth manual rejections, masks, FDWRA and range updates "
                 "so that acceptance counts differ between azimuths; every statistic (both distributions) after every op vs the model; "
                 "non-trivial = >=2 azimuths with unequal, non-zero accepted counts; distinct by history hash")
     rng = np.random.default_rng(ctx.seed)
+    hvgen.ZERO_SAMPLES = True      # 8 % of the curve sets hold one exact zero amplitude (log 0 = -inf)
     witness_c11a(ctx)
+    repeatable_probe(ctx, np.random.default_rng(ctx.seed + 11))
     n = ctx.budget(120, 2000)
     hists = [hvhist.build_history(rng, i + 1, "A", int(rng.integers(1, 7))) for i in range(n)]
     hvhist.run_histories(ctx, hists, "azimuthal-statistics-equal-cheng-estimators", "accept-state-after-history", nontrivial)
